@@ -70,7 +70,9 @@ def gen_members(rng, nmax=60):
         elif j == 0 and kind in ("file", "std", "empty") and rng.random() < 0.15:
             # the archive's first bytes are its first member's name: one that begins like a compressed stream (gzip 1f 8b,
             # bzip2 "BZh", xz fd "7zXZ") is still a plain archive
-            name = rng.choice(["\x1f\udc8b", "\x1f\udc8b\x08", "BZh91AY&SY", "\udcfd7zXZ"]) + base
+            # (not 1f 8b 08: CPython's own tarfile.open lets the EOFError of its gzip trial escape on such an archive, so
+            # there is no standard reader to agree with)
+            name = rng.choice(["\x1f\udc8b", "\x1f\udc8b\x07", "BZh91AY&SY", "\udcfd7zXZ"]) + base
             m["magic_like_name"] = True
         if name in names or name.rstrip("/") in names:
             continue
